@@ -2,6 +2,7 @@
 from cfg import cfg_of
 from flow import Taint, Tracker, callee_matches, field_reads, op_local, prep, locals_of_type
 from rules import CallGuard, CallSink, CmpGuard, RetSink, AggSink, BlockSink
+from rules import is_forward
 from rules import PL
 from props.C04 import call_results, RS_PUT, NRS, agg_field_operands
 from flow import backward
@@ -203,7 +204,7 @@ def run(R):
             rejects |= gd.edges(rfd)[2]
         live = g.reach((0,), cut=rejects)
         nones = [b for b in AggSink("core::option::Option", "None").blocks(rfd) if b in live]
-        fwd = [b for b in rfd.blocks if b["term"]["k"] == "call" and b["term"]["d"] == [0] and not b["cleanup"] and b["id"] in live]
+        fwd = [b for b in rfd.blocks if b["term"]["k"] == "call" and is_forward(rfd, b["term"]) and not b["cleanup"] and b["id"] in live]
         okr = not nones and len(fwd) == 1 and callee_matches(fwd[0]["term"], [NRS + "::get_record_from_bytes"])
         if not okr:
             R.viol("C01.read.complete", "readable-file-unread", "read_from_disk can answer None (or something other than get_record_from_bytes' verdict) for a file that was read successfully", rfd, rfd.lines[0])
